@@ -471,7 +471,8 @@ def einvLoop (e : Par α) (x : α) : Nat → α → Option α
     let dn := delta e sn cn
     let err := (inc e .E sn cn dn - x) / dn
     let phi1 := phi - err
-    if !(ltb tolJAC (RealLike.abs err)) then some phi1 else einvLoop e x n phi1
+    -- (relative to the angle for small angles — /repo 84b53d7; `phi` is already the corrected value here)
+    if !(ltb (tolJAC * RealLike.min 1 (RealLike.abs phi1)) (RealLike.abs err)) then some phi1 else einvLoop e x n phi1
 
 /-- the reduction of `Einv`: `n = floor(x/(2E) + 0.5)` and `x − 2E·n` -/
 def einvReduce (e : Par α) (x : α) : α × α :=
